@@ -1026,7 +1026,8 @@ MANIFEST = {
                   'LinSpaceVM.change_state/step/set_commands (one translated step refines one model step under a state relation, same '
                   'exception kinds; set_commands builds the label table the model searches for; run with fuel refines the model run) and '
                   '_TranslationState.set_voltage/_set_indexed_voltage/_add_hold_node (append exactly the model commands, same state) are '
-                  'translated and proved against the model; C17_staircase_source_vm: the staircase theorem with the translated VM in '
+                  'translated and proved against the model; ProgramEntry._transform_linspace_commands (comprehension + in-place rescaling loop) '
+                  'is translated and proved equal to the model transformation; C17_staircase_source_vm: the staircase theorem with the translated VM in '
                   'place of the modelled one; index-dependent hold durations are refused (NotImplementedError).  (5) refutation: the '
                   'round-1 statement is false without the key-collision guard.  The model is tied to /repo on every run by the exact '
                   'correspondence check (real pipeline vs model vs independently unrolled default Loop program).',
@@ -1036,12 +1037,12 @@ MANIFEST = {
                   'primitive table (GenLib.v), schemas and value semantics (aliasing is invisible to it).  Still only hand-modelled '
                   '(tied by the correspondence check alone): the builder (hold_voltage, with_*), the node recursion '
                   '(_add_iteration_node, _add_repetition_node incl. the entry-state snapshot, add_node), dependencies(), '
-                  'DepKey.from_voltages, _transform_linspace_commands.  Repaired in /repo: count-1 repetition played twice, int '
+                  'DepKey.from_voltages.  Repaired in /repo: count-1 repetition played twice, int '
                   'voltages (round 1); repetition entry state, zero-factor aliasing, register shared across depths, index rebinding '
                   'under a repetition, unused outputs in the hardware scaling (round 2); shadowed loop index -> AssertionError (round 3, '
                   'a68b904).  No known finding left.',
     'technique': 'Coq proof over a hand-written executable model (VM step/set_commands, set_voltage, _set_indexed_voltage, '
-                 '_add_hold_node and the increment kernel translated from source and proved against it) + exact correspondence '
+                 '_add_hold_node, _transform_linspace_commands and the increment kernel translated from source and proved against it) + exact correspondence '
                  'check against the real pipeline',
     'design_ref': 'DESIGN.md §5 C17',
 }
